@@ -328,7 +328,7 @@ fn one_world(ctx: &mut Ctx, rng: &mut Rng) {
 
 fn run(ctx: &mut Ctx) {
     let mut rng = ctx.rng.clone();
-    let n = ctx.tier.of(150, 1_500);
+    let n = ctx.tier.of(2_000, 8_000);
     for _ in 0..n {
         one_world(ctx, &mut rng);
     }
@@ -342,9 +342,9 @@ fn finish(m: &Merged, tier: Tier) -> Finish {
         exhaustive_part: "per world: every cancellation index 0..polls; all interleavings of the two evaluations when their number is within the cap".into(),
         ..Default::default()
     };
-    f.floors.push(floor(format!("distinct (ruleset, schedule) pairs: {}", m.distinct_nontrivial), m.distinct_nontrivial >= tier.of(10_000, 200_000)));
-    f.floors.push(floor(format!("interleavings with at least one switch: {}", m.c("interleavings-with-a-switch")), m.c("interleavings-with-a-switch") >= tier.of(5_000, 100_000)));
-    f.floors.push(floor(format!("evaluations dropped midway: {}", m.c("cancel:dropped-midway")), m.c("cancel:dropped-midway") >= tier.of(2_000, 20_000)));
+    f.floors.push(floor(format!("distinct (ruleset, schedule) pairs: {}", m.distinct_nontrivial), m.distinct_nontrivial >= tier.of(100_000, 1_000_000)));
+    f.floors.push(floor(format!("interleavings with at least one switch: {}", m.c("interleavings-with-a-switch")), m.c("interleavings-with-a-switch") >= tier.of(50_000, 1_000_000)));
+    f.floors.push(floor(format!("evaluations dropped midway: {}", m.c("cancel:dropped-midway")), m.c("cancel:dropped-midway") >= tier.of(20_000, 80_000)));
     f.floors.push(floor(format!("cancellation indices seen: {}", m.prefix_count("cancel:after-polls")), m.prefix_count("cancel:after-polls") >= 5));
     f.extras.insert("interleavings_by_switches".into(), json!(m.prefix_map("interleave:")));
     f.extras.insert("cancellation_points_seen".into(), json!(m.prefix_map("cancel:")));
